@@ -840,6 +840,17 @@ def judge_against_minimax(o, cases, res):
             if m:
                 per_depth[int(m.group(2))] = (("cp %s" % m.group(4)) if m.group(4) is not None else ("mate %s" % m.group(5)), m.group(1).strip().split(" ")[0])
         maxd = max(per_depth) if per_depth else 0
+        # every reported improvement hands its move back (send i belongs to info i; a last send without info is the fallback)
+        sends = [x.split("#")[0] for x in d["sends"]]
+        if len(sends) < len(d["infos"]):
+            ok = False
+            o.violation("input", "%d improvements reported but only %d moves handed back: %s" % (len(d["infos"]), len(sends), r["case"]),
+                        {"case": r["case"], "infos": d["infos"], "sends": sends})
+        last_idx = {}
+        for i_, l in enumerate(d["infos"]):
+            m_ = INFO_RE.match(l)
+            if m_:
+                last_idx[int(m_.group(2))] = i_
         for dd in (1, 2, 3):
             # a depth is complete when a deeper one was started
             if dd < maxd and dd in per_depth:
@@ -848,7 +859,14 @@ def judge_against_minimax(o, cases, res):
                     continue
                 judged += 1
                 score, first = per_depth[dd]
-                if score != m.group(1) or first not in m.group(2).split(","):
+                short, _, full = m.group(2).partition(";")
+                # the move handed back with the last improvement of this depth is the selected move (promotion letter included)
+                sel = sends[last_idx[dd]] if dd in last_idx and last_idx[dd] < len(sends) else None
+                if full and sel is not None and sel not in full.split(","):
+                    ok = False
+                    o.violation("input", "depth %d: the move handed back is %s, the minimax value %s is attained by %s: %s" % (dd, sel, m.group(1), full, r["case"]),
+                                {"case": r["case"], "selected": sel, "oracle": orc})
+                if score != m.group(1) or first not in short.split(","):
                     ok = False
                     o.violation("input", "depth %d: engine reports %s via %s, minimax value is %s attained by %s: %s" % (
                         dd, score, first, m.group(1), m.group(2), r["case"]), {"case": r["case"], "engine": per_depth, "oracle": orc})
